@@ -250,6 +250,7 @@ func (e *envelopeEncryption) createIntermediateKey(ctx context.Context) (*intern
 	}
 
 	defer sk.Close()
+	verifHook("createik.got_sk", sk)
 
 	ik, err := e.generateKey()
 	if err != nil {
@@ -390,6 +391,7 @@ func (e *envelopeEncryption) EncryptPayload(ctx context.Context, data []byte) (*
 	}
 
 	defer ik.Close()
+	verifHook("enc.got_ik", ik)
 
 	// Note the id doesn't mean anything for DRK. Don't need to truncate created since that is intended
 	// to prevent excessive IK/SK creation (we always create new DRK on each write, so not a concern there)
@@ -463,6 +465,7 @@ func (e *envelopeEncryption) DecryptDataRowRecord(ctx context.Context, drr DataR
 	}
 
 	defer ik.Close()
+	verifHook("dec.got_ik", ik)
 
 	return decryptRow(ik, drr, e.Crypto)
 }
@@ -484,6 +487,7 @@ func (e *envelopeEncryption) loadIntermediateKey(ctx context.Context, meta KeyMe
 	}
 
 	defer sk.Close()
+	verifHook("loadik.got_sk", sk)
 
 	return e.intermediateKeyFromEKR(sk, ekr)
 }
@@ -491,6 +495,8 @@ func (e *envelopeEncryption) loadIntermediateKey(ctx context.Context, meta KeyMe
 // Close frees all memory locked by the keys in the session. It should be called
 // as soon as its no longer in use.
 func (e *envelopeEncryption) Close() error {
+	verifHook("env.close", e)
+
 	if e.Policy != nil && e.Policy.SharedIntermediateKeyCache {
 		return nil
 	}
